@@ -13,6 +13,7 @@ from vf.zoo import DETECTORS, random_detector
 SHARDS = {"quick": 8, "thorough": 16}
 WATCHDOG = {"quick": 1800, "thorough": 10800}
 ZOO_CASES = {"quick": 100, "thorough": 1500}
+DEGENERATE_CASES = {"quick": 120, "thorough": 1500}
 FLOORS = {
     "quick": {"distinct_nontrivial": 1500, "grid_valid_completed": 1200, "grid_invalid_rejected": 2000,
               "zoo_completed": 350, "nan_cases": 800},
@@ -39,7 +40,10 @@ RULE = (
     "predict data); valid point => completes and the output satisfies the C04 predicate (contract K1); "
     "permitted extras: documented RuntimeError (multivariate Gaussian cost only), ValueError when the "
     "cost's minimum size exceeds the requested segment length / bandwidth. (ii) zoo: random valid "
-    "configurations (user-defined scorers included) x 15 data kinds must run to completion. "
+    "configurations (user-defined scorers included) x 17 data kinds must run to completion; (iii) "
+    "threshold-based detectors with a tuned (or zero) threshold on flat / piecewise-flat data of values "
+    "that are not exactly representable (scores and tuned thresholds zero up to rounding, i.e. possibly "
+    "slightly negative) must run to completion within 20 s (n <= 50). "
     "Non-trivial = boundary-valued grid point (any parameter at the edge of its domain or n within 1 "
     "of the minimum); distinct by recipe digest."
 )
@@ -309,9 +313,94 @@ def zoo_case(ctx, r):
         ctx.nt(digest([spec, r["X"]]))
 
 
+def degenerate_recipe(rng):
+    """Threshold-based detectors whose threshold is tuned (or 0) on data with flat stretches of values
+    that are not exactly representable: every cost-based score is 0 only up to rounding error there,
+    so scores and the tuned threshold can be slightly negative.  Still 'every finite input'."""
+    which = ["SeededBinarySegmentation", "CircularBinarySegmentation", "MovingWindow",
+             "StatThresholdAnomaliser"][int(rng.integers(4))]
+    sc = [S("L2Cost", param=None), S("GaussianVarCost", param=None),
+          S("ChangeScore", cost=S("L1Cost", param=None)), None][int(rng.integers(4))]
+    msl = int(rng.integers(1, 4))
+    if sc is not None and sc["cls"] == "GaussianVarCost":
+        msl = max(msl, 2)
+    ts = None if rng.random() < 0.8 else 0.0
+    level = float([1e-8, 0.01, 0.2, 0.6][int(rng.integers(4))])
+    p = 1 if which == "StatThresholdAnomaliser" else int(rng.integers(1, 4))
+
+    def sbs():
+        return S("SeededBinarySegmentation", change_score=sc, threshold_scale=ts, level=level,
+                 min_segment_length=msl, max_interval_length=int(rng.integers(2 * msl, 2 * msl + 30)),
+                 growth_factor=float([1.1, 1.5, 2.0][int(rng.integers(3))]))
+
+    if which == "SeededBinarySegmentation":
+        spec, nmin = sbs(), 2 * msl
+    elif which == "CircularBinarySegmentation":
+        a = sc
+        if a is not None and a["cls"] == "ChangeScore":
+            a = S("LocalAnomalyScore", cost=S("L1Cost", param=None))
+        spec = S("CircularBinarySegmentation", anomaly_score=a, threshold_scale=ts, level=level,
+                 min_segment_length=msl, max_interval_length=int(rng.integers(2 * msl, 2 * msl + 16)),
+                 growth_factor=float([1.1, 1.5, 2.0][int(rng.integers(3))]))
+        nmin = 2 * msl
+    elif which == "MovingWindow":
+        b = max(msl, int(rng.integers(1, 7)))
+        spec = S("MovingWindow", change_score=sc, bandwidth=b, threshold_scale=ts, level=max(level, 0.01),
+                 min_detection_interval=1)
+        nmin = 2 * b
+    else:
+        lo = float([-1.0, 0.0, 0.2][int(rng.integers(3))])
+        spec = S("StatThresholdAnomaliser", change_detector=sbs(), stat={"fn": "np.mean"},
+                 stat_lower=lo, stat_upper=lo + 1.0)
+        nmin = 2 * msl
+    n = int(rng.integers(max(nmin, 3), max(nmin, 3) + 40))
+    kind = ["flat", "steps"][int(rng.integers(2))]
+    X, _ = gen_data(rng, n, p, kind)
+    return {"kind": "degenerate", "det": spec, "X": X, "data_kind": kind}
+
+
+def degenerate_case(ctx, r):
+    """Same oracle as the zoo (valid configuration => completes, well-formed), shorter time limit."""
+    import pandas as pd
+
+    X = np.asarray(r["X"], dtype=float)
+    n, p = X.shape
+    spec = r["det"]
+    name = spec["cls"]
+    data = pd.Series(X[:, 0]) if name == "StatThresholdAnomaliser" else X
+    ctx.case()
+    ctx.stat("degenerate_cases")
+    label = f"{short(spec)} X[{n}x{p}] data={r['data_kind']}"
+    sub = f"zoo-{name}"
+    I.drain()
+    try:
+        with time_limit(20):
+            outcome, msg, det, y = run_pipeline(spec, data, data)
+    except CaseTimeout:
+        ctx.violation(sub, "did-not-complete", f"{label}: no outcome within 20 s (n = {n})", r)
+        return False
+    hits = I.drain()
+    if outcome == "completed":
+        ctx.stat("degenerate_completed")
+        thr = getattr(det, "threshold_", None)
+        if thr is None and hasattr(det, "change_detector_"):
+            thr = getattr(det.change_detector_, "threshold_", None)
+        if thr is not None and thr < 0:
+            ctx.stat("degenerate_negative_tuned_threshold")
+            ctx.nt(digest([spec, r["X"]]))
+        for pr in ([h["message"] for h in hits if h["contract"] == "K1"] or problems(det, n, p, y))[:1]:
+            ctx.violation(sub, "malformed-output", f"{label}: {pr}", r)
+    else:
+        ctx.violation(sub, f"valid-config-failed[{outcome.split('@')[0]}]",
+                      f"{label}: inside the documented domain but {outcome}: {msg}", r)
+    return True
+
+
 def exec_case(ctx, r):
     if r["kind"] == "grid":
         grid_case(ctx, r)
+    elif r["kind"] == "degenerate":
+        return degenerate_case(ctx, r)
     else:
         zoo_case(ctx, r)
 
@@ -323,6 +412,12 @@ def run(ctx):
             exec_case(ctx, r)
     for i in range(ZOO_CASES[ctx.tier]):
         exec_case(ctx, zoo_recipe(ctx.rng, ctx.tier, DETECTORS[i % len(DETECTORS)]))
+    stuck = 0
+    for i in range(DEGENERATE_CASES[ctx.tier]):
+        if exec_case(ctx, degenerate_recipe(ctx.rng)) is False:
+            stuck += 1
+            if stuck >= 3:  # three witnesses per shard are enough; each costs its full time limit
+                break
 
 
 def replay(ctx, sub, recipe):
